@@ -30,6 +30,7 @@ static void gen_common(Plan* p, Rng* r, int tier, long idx, int which) {
         if (plan_get(p, "fin_out", 0) < 2000) plan_set(p, "fin_out", 2000 + (int64_t)rng_below(r, 100000)); }
     sess_gen_dhist(p, r);
     plan_set(p, "hint_out", rng_coin(r, 1, 2) ? (1 << 20) : rng_range(r, 1, 200000));
+    plan_set(p, "hint_reinit", (int64_t)rng_below(r, 2));
     sim_sched_plan_defaults(p, r, 0);
     plan_set(p, "sched_step_cap", 6000000);
 }
@@ -107,9 +108,12 @@ static void hint_reader(Sess* s, const Plan* p) {
         total_out += o.pos; pos += in.pos;
         if (r == 0) {
             if (pos != frame_ends[fi]) sim_violation("hint_frame_size", "frame %d reported complete after consuming up to %zu, frame ends at %zu", fi, pos, frame_ends[fi]);
-            fi++; hint = ZSTD_initDStream(d) ; presented = pos;
-            if (s->magicless) ZSTD_DCtx_setParameter(d, ZSTD_d_format, ZSTD_f_zstd1_magicless);
-            if (s->dict) { if (s->dict_raw) ZSTD_DCtx_refPrefix_advanced(d, s->dict, s->dict_size, ZSTD_dct_rawContent); else ZSTD_DCtx_loadDictionary(d, s->dict, s->dict_size); }
+            fi++; presented = pos;
+            if (plan_get(p, "hint_reinit", 1)) {   /* either re-initialise per frame, or let the same stream run on into the next frame */
+                hint = ZSTD_initDStream(d);
+                if (s->magicless) ZSTD_DCtx_setParameter(d, ZSTD_d_format, ZSTD_f_zstd1_magicless);
+                if (s->dict) { if (s->dict_raw) ZSTD_DCtx_refPrefix_advanced(d, s->dict, s->dict_size, ZSTD_dct_rawContent); else ZSTD_DCtx_loadDictionary(d, s->dict, s->dict_size); }
+            } else { hint = s->magicless ? 1 : 5; sim_probe("c10.hint_reader_continuing_frames"); }   /* ZSTD_startingInputLength */
         } else {
             hint = r;
             if (in.pos == 0 && o.pos == 0 && in.size > 0 && hint == 0) break;
